@@ -248,6 +248,7 @@ func (s *Store) Flush() error {
 	for _, name := range cnames {
 		c := coll[name]
 		rnls[name] = c.rootAddRef()
+		verifYield("flush.pinned", c)
 	}
 	defer func() {
 		for _, name := range cnames {
@@ -255,10 +256,12 @@ func (s *Store) Flush() error {
 		}
 	}()
 	for _, name := range cnames {
+		verifYield("flush.write", coll[name])
 		if err := coll[name].write(rnls[name].root); err != nil {
 			return err
 		}
 	}
+	verifYield("flush.roots", nil)
 	return s.writeRoots(rnls)
 }
 
